@@ -15,6 +15,8 @@ pub mod reqid;
 pub mod snmp;
 mod socket;
 mod util;
+#[cfg(feature = "verif")]
+pub mod verif;
 
 /// Module index
 #[pymodule]
@@ -31,5 +33,7 @@ fn gufo_snmp(py: Python, m: &Bound<'_, PyModule>) -> PyResult<()> {
     m.add_class::<snmp::op::GetIter>()?;
     m.add_function(wrap_pyfunction!(util::get_master_key, m)?)?;
     m.add_function(wrap_pyfunction!(util::get_localized_key, m)?)?;
+    #[cfg(feature = "verif")]
+    m.add_function(wrap_pyfunction!(verif::_verif_rng_force, m)?)?;
     Ok(())
 }
